@@ -33,6 +33,8 @@ class Obl:
                 "status": v.status if v else None, "backend": v.backend if v else None,
                 "ms": round(v.seconds * 1000, 1) if v else None,
                 "instances": v.n_instances if v else None, "info": self.info,
+                "weak": sorted(getattr(getattr(self, "res", None), "interp", None).ghost.get("weak_externals", {}))
+                if getattr(getattr(self, "res", None), "interp", None) is not None else [],
                 "path": [f"{l}={d}" for l, d in self.path_labels][:12]}
 
 
@@ -67,6 +69,10 @@ def constructor_args(I, cls, name, arity=None):
     return [ct.make_child(I, f"{name}._inner")]
 
 
+CONTAINER_MUTATORS = {"append", "add", "update", "setdefault", "pop", "popitem", "clear", "extend", "insert", "remove",
+                      "discard", "sort", "reverse", "difference_update", "intersection_update", "symmetric_difference_update"}
+
+
 def arbitrary_history(I, o):
     """An object that has been used before: every field that some method other than the
     constructor assigns (and that is not one of the documented memo fields, which the families
@@ -87,6 +93,16 @@ def arbitrary_history(I, o):
                     if isinstance(n, _ast.Attribute) and isinstance(n.ctx, _ast.Store) and isinstance(n.value, _ast.Name) \
                             and n.value.id == "self" and n.attr not in MEMO_FIELDS:
                         names.add(n.attr)
+                    # containers held in a field and updated in place: self.f[k] = v, del self.f[k],
+                    # self.f.append(..) / add / update / setdefault / pop / clear / extend / insert / remove / discard
+                    tgt = None
+                    if isinstance(n, _ast.Subscript) and isinstance(n.ctx, (_ast.Store, _ast.Del)):
+                        tgt = n.value
+                    elif isinstance(n, _ast.Call) and isinstance(n.func, _ast.Attribute) and n.func.attr in CONTAINER_MUTATORS:
+                        tgt = n.func.value
+                    if isinstance(tgt, _ast.Attribute) and isinstance(tgt.value, _ast.Name) and tgt.value.id == "self" \
+                            and tgt.attr not in MEMO_FIELDS:
+                        names.add(tgt.attr)
         cache[o.cls.name] = names
     for f in cache[o.cls.name]:
         if f in o.fields:
